@@ -69,8 +69,8 @@ protected:
         return ch;
     }
     std::streamsize xsputn(const char* s, std::streamsize n) override {
-        std::streamsize room = (std::streamsize)(capacity_ > written.size() ? capacity_ - written.size() : 0);
-        std::streamsize w = n < room ? n : room;
+        size_t room = capacity_ > written.size() ? capacity_ - written.size() : 0;      // capacity SIZE_MAX = unlimited
+        std::streamsize w = (size_t)n < room ? n : (std::streamsize)room;
         written.append(s, (size_t)w);
         if (w < n) { ++failures_fired; if (kind_ == 2) throw std::runtime_error("simulated sink error"); }
         return w;
